@@ -200,6 +200,48 @@ func childC19(args []string) int {
 				}
 			}
 		}
+		// (a') a listing that repeats a label is the same SET of nodes
+		if len(labels) >= 2 {
+			for _, pos := range []int{0, len(labels) / 2, len(labels)} {
+				dup := append([]string(nil), labels[:pos]...)
+				dup = append(dup, labels[rng.Intn(len(labels))])
+				dup = append(dup, labels[pos:]...)
+				got := route(cluster.New(mkBuckets(dup)), ps)
+				run.Eval(1)
+				run.Count("probes_compared", int64(len(got)))
+				run.Distinct(fmt.Sprintf("%s|%d|dup|%d|%s", kind, len(labels), pos, labels[0]))
+				for i := range got {
+					if got[i] != ref[i] {
+						run.Violation("cluster|"+kind+"|a listing that repeats a node label routes differently from the plain node set", map[string]interface{}{
+							"labels": labels, "listing": dup, "probe": probeDesc(ps, i), "plain": ref[i], "with_duplicate": got[i]})
+						break
+					}
+				}
+			}
+		}
+		// (a'') one Continuum re-used across a membership change (Reset) answers like a new one,
+		// also for the very location it answered last
+		if len(labels) > 1 {
+			x := rng.Intn(len(labels))
+			rest := append(append([]string(nil), labels[:x]...), labels[x+1:]...)
+			fresh := cluster.New(mkBuckets(rest))
+			nprobe := minInt(300, len(ps.locs))
+			for t := 0; t < nprobe; t++ {
+				loc := ps.locs[rng.Intn(len(ps.locs))]
+				reused := cluster.New(mkBuckets(labels))
+				before := reused.Bucket(loc).Label()
+				reused.Reset(mkBuckets(rest))
+				after := reused.Bucket(loc).Label()
+				run.Count("probes_compared", 1)
+				if want := fresh.Bucket(loc).Label(); after != want {
+					run.Violation("cluster|"+kind+"|a ring re-used across a membership change keeps answering from the old node set", map[string]interface{}{
+						"labels": labels, "removed": labels[x], "ring_location": loc, "before": before, "after_reset": after, "fresh_ring": want})
+					break
+				}
+			}
+			run.Eval(1)
+			run.Distinct(fmt.Sprintf("%s|%d|reset|%s", kind, len(labels), labels[0]))
+		}
 		// (b) single-node removals
 		if len(labels) > 1 {
 			for x := range labels {
@@ -355,6 +397,42 @@ func childC19(args []string) int {
 			if bad != "" {
 				run.Violation("cluster|end-to-end|"+bad, map[string]interface{}{"nodes": addrs, "key": key, "set_node": setNode, "get_node": getNode, "set": sres.Class, "get": brief(gres)})
 				break
+			}
+		}
+		// multi-key (quiet) gets: every key of the batch must be asked on the node that holds it
+		for b := 0; b < run.Pick(20, 150); b++ {
+			var keys []string
+			vals := map[string][]byte{}
+			for j := 0; j < 8; j++ {
+				k := fmt.Sprintf("e2e-m-%d-%d-%d", n, b, j)
+				v := makeValue(uint32(b*8+j), 12)
+				keys = append(keys, k)
+				vals[k] = v
+				if r := handlerExec(h1, wire.Cmd{Op: "set", Key: k, Value: v, Flags: 5}, 0); r.Class != "ok" {
+					run.Violation("cluster|end-to-end|set or get through the cluster handler failed", map[string]interface{}{"key": k, "set": r.Class})
+				}
+			}
+			g := handlerExec(h2, wire.Cmd{Op: "get", Keys: keys, Opaque: 100, NoopEnd: b%2 == 0}, 0)
+			run.Count("end_to_end_keys", int64(len(keys)))
+			if len(g.Anomalies) > 0 || len(g.Values) != len(keys) {
+				missing := 0
+				got := map[string]bool{}
+				for _, v := range g.Values {
+					got[v.Key] = true
+				}
+				for _, k := range keys {
+					if !got[k] {
+						missing++
+					}
+				}
+				run.Violation("cluster|end-to-end|a multi-key get misses keys that are stored in the cluster", map[string]interface{}{
+					"nodes": addrs, "keys": keys, "missing": missing, "anomalies": g.Anomalies})
+				break
+			}
+			for _, v := range g.Values {
+				if string(v.Data) != string(vals[v.Key]) {
+					run.Violation("cluster|end-to-end|a multi-key get returns another key's value", map[string]interface{}{"key": v.Key})
+				}
 			}
 		}
 		run.Eval(1)
